@@ -41,6 +41,7 @@ type harnessReg struct {
 	Float       string            `json:"float"`
 	MaxAlloc    int64             `json:"max_alloc"`
 	AllocCut    bool              `json:"alloc_cut"`
+	NoWitness   bool              `json:"no_witness_replay"`
 	Quick       tierCfg           `json:"quick"`
 	Thorough    tierCfg           `json:"thorough"`
 	Bounds      map[string]string `json:"bounds"` // tier -> text
@@ -475,6 +476,9 @@ func cmdCheck(args []string) int {
 		// replay: sampled witnesses (translation validation of the engine)
 		ns := 0
 		for _, w := range r.Witnesses {
+			if o.reg.NoWitness {
+				break
+			}
 			if ns >= o.cfg.Samples {
 				break
 			}
